@@ -301,7 +301,7 @@ Lemma step_at_globals ch cfg cache srv c t th th' c' cfg' cache' l :
 Proof.
   intros Hi Hcfg Hcache H. destruct th as [cl path key p msg lat first init data wc new res].
   crack H; cbn in *; subst p; destruct Hi; cbn in *; split; auto.
-  intros k h. destruct (Nat.eqb_spec k key); [intros [= <-]; auto|eauto].
+  subst data; cbn in *. intros k h'. destruct (Nat.eqb_spec k key); [intros [= <-]; auto|eauto].
 Qed.
 
 Lemma step_inv s t s' l : Inv s -> step s t = Some (s', l) -> Inv s'.
